@@ -2273,6 +2273,23 @@ class AssignIndex(Elemwise):
         return self.value.divisions
 
 
+def _is_row_aligned_input(expr, op):
+    """Is ``op`` an input of the partitionwise ``expr`` whose rows line up with
+    the rows of the result (so that a row selection has to be applied to it)?"""
+    if not expr._broadcast_dep(op):
+        return True
+    # A broadcast input is recognised by its single partition; in a frame that
+    # has only one partition itself that also holds for row-aligned inputs.
+    # Those share the divisions of the frame, a reduced (broadcast) value has
+    # divisions of its own.
+    return (
+        op.ndim > 0
+        and expr.npartitions == 1
+        and op.npartitions == 1
+        and tuple(op.divisions) == tuple(expr.divisions)
+    )
+
+
 class Head(Expr):
     """Take the first `n` rows of the first partition"""
 
@@ -2303,7 +2320,7 @@ class Head(Expr):
             operands = [
                 (
                     Head(op, self.n, self.operand("npartitions"))
-                    if isinstance(op, Expr) and not self.frame._broadcast_dep(op)
+                    if isinstance(op, Expr) and _is_row_aligned_input(self.frame, op)
                     else op
                 )
                 for op in self.frame.operands
@@ -2418,7 +2435,7 @@ class Tail(Expr):
             operands = [
                 (
                     Tail(op, self.n)
-                    if isinstance(op, Expr) and not self.frame._broadcast_dep(op)
+                    if isinstance(op, Expr) and _is_row_aligned_input(self.frame, op)
                     else op
                 )
                 for op in self.frame.operands
